@@ -183,7 +183,7 @@ pub fn property() -> Property {
         gen,
         check,
         finalize: no_finalize,
-        rule: "one evaluation = one simulated execution in which the real main() is booted from a configuration with a per-run seed (random, all-zero, all-0xff, single-bit patterns), 1-4 workers, served mixed classic/IETF traffic with correct/wrong/absent SRV under arbitrary REUSEPORT distribution, and crashed, signalled or restarted 0-4 times at seeded instants (with traffic in flight) and rebooted from the same configuration; non-trivial = at least one response sent; distinct = distinct schedule fingerprints",
+        rule: "one evaluation = one simulated execution in which the real main() is booted from a configuration with a per-run seed (random, all-zero, all-0xff, single-bit patterns), 1-4 workers, a wall clock started (two runs in three) at a swept instant (epoch, 2^31, 2^32, far future, second/minute/day rollovers), served mixed classic/IETF traffic with correct/wrong/absent SRV under arbitrary REUSEPORT distribution, and crashed, signalled or restarted 0-4 times at seeded instants (with traffic in flight) and rebooted from the same configuration; non-trivial = at least one response sent; distinct = distinct schedule fingerprints",
         assumptions: &["the only durable state is the configuration: a restart is a fresh process image with the same argv/config", "RFC 8032 public key and SRV computed by ring / sha2"],
         real: REAL_F,
         stub: STUB,
